@@ -113,6 +113,7 @@ struct Req {
     saw_eof: bool,
     saw_err: bool,
     finished: bool,
+    polls_after_end: u64,
 }
 
 #[derive(Debug, Clone)]
@@ -302,6 +303,7 @@ fn register(info: RequestInfo, plan: Plan) -> usize {
             saw_eof: false,
             saw_err: false,
             finished: false,
+            polls_after_end: 0,
         });
         id
     })
@@ -461,6 +463,14 @@ impl Future for ChunkFuture<'_> {
             let mut n = n.borrow_mut();
             let r = &mut n.reqs[id];
             if r.saw_eof {
+                // A client that keeps asking a finished body for more, without end, is spinning.
+                r.polls_after_end += 1;
+                if r.polls_after_end > 200_000 {
+                    simkit::runner::trip(
+                        "stream.polled_after_end",
+                        "the response body was asked for another chunk more than 200000 times after its end (the consumer does not terminate)",
+                    );
+                }
                 return Poll::Ready(Ok(None));
             }
             if r.timed_out {
